@@ -217,6 +217,9 @@ func (ch *channel) addInitDataAndUpdateTimescale(stream stream, init *mp4.InitSe
 		if len(asSet.Roles) > 0 {
 			asRole = asSet.Roles[0].Value
 		}
+		if len(asSet.Representations) == 0 {
+			continue
+		}
 		firstRep := asSet.Representations[0]
 		if string(asSet.ContentType) == stream.mediaType && strings.HasPrefix(firstRep.Codecs, sampleEntry) &&
 			lang == asSet.Lang && role == asRole {
@@ -225,6 +228,13 @@ func (ch *channel) addInitDataAndUpdateTimescale(stream stream, init *mp4.InitSe
 		}
 	}
 
+	for _, asSet := range p.AdaptationSets {
+		for _, rep := range asSet.Representations {
+			if rep.Id == stream.trName { // init segment sent again: the track is already described
+				return nil // (before a new, never completed AdaptationSet is appended for it)
+			}
+		}
+	}
 	if currAsSet == nil {
 		currAsSet = m.NewAdaptationSet()
 		currAsSet.Lang = lang
